@@ -124,7 +124,14 @@ def work(args):
                 r = srv.request('convert', nl=nl, opts=od, acc=flatcheck.acc_of(cfg, cfg.get('default', 0)))
                 if r.get('status') == 'optionerror':
                     st['option_unknown'] += 1; continue
-                v = flatcheck.judge_fast(srv, m, r, tt)
+                # cvt:sos=0 / cvt:sos2=0 ask the converter to ignore the SOS suffixes: the reference does the same
+                m2, tt2 = m, tt
+                drop = [n for flag, names in (('cvt:sos=0', ('sosno', 'ref')), ('cvt:sos2=0', ('sos', 'sosref'))) if flag in od.split() for n in names]
+                if drop and any(sf[2] in drop for sf in m.suffixes):
+                    m2 = nlmodel.Model(m.vars, acons=m.acons, lcons=m.lcons, objs=m.objs, dvars=m.dvars, compl=m.compl,
+                                       suffixes=[sf for sf in m.suffixes if sf[2] not in drop])
+                    tt2 = flatcheck.truth_table(m2)
+                v = flatcheck.judge_fast(srv, m2, r, tt2)
                 record(cfg, od, r, v)
     if idx % 500 == 0:
         samples.append({'model': m.describe(), 'nl_lines': nl.count('\n'), 'configs': st['configs']})
